@@ -170,6 +170,61 @@ func voteProtocol(cx *CheckCtx, names []string) int {
 			}
 		}
 		cx.decide(okQuiet, "threshold", key+"/quiet", "n < threshold ⇒ no action effect executed", "the action can be executed although the vote count is below the threshold", v.Where(w))
+		// the decision takes effect: every exit that is not the quiet "below threshold" return has
+		// executed the documented action of the method (its store / delete and its notification)
+		type want struct {
+			desc string
+			pick func(e *Site) bool
+		}
+		var wants []want
+		byNotify := func(n string) want {
+			return want{"Notify " + n, func(e *Site) bool { return notifyName(e) == n }}
+		}
+		switch name {
+		case "AlphabetUpdate":
+			wants = []want{{"the store of the new Alphabet list", func(e *Site) bool {
+				k, _ := e.Args[1].BytesConst()
+				return e.Effect == "put" && k == "alphabet"
+			}}, byNotify("AlphabetUpdate")}
+		case "SetConfig":
+			wants = []want{{"the store of the configuration value", func(e *Site) bool {
+				return e.Effect == "put" && keyFamily(e.Args[1]) == "config" && e.Args[2] == paramTerm(tb, m, "val")
+			}}, byNotify("SetConfig")}
+		case "Cheque":
+			wants = []want{{"the GAS transfer", func(e *Site) bool { return e.Effect == "transfer" }}, byNotify("Cheque")}
+		case "InnerRingCandidateRemove":
+			wants = []want{{"the delete of the candidate", func(e *Site) bool {
+				return e.Effect == "delete" && keyFamily(e.Args[1]) == "candidates"
+			}}}
+		}
+		okFire, whyFire := true, ""
+		for _, wn := range wants {
+			var site *Site
+			for _, e := range actions {
+				if wn.pick(e) {
+					site = e
+				}
+			}
+			if site == nil {
+				okFire, whyFire = false, wn.desc+" is gone"
+				continue
+			}
+			for _, ex := range a.Exits() {
+				q := []int32{a.eLit(site), ltLit}
+				if name == "InnerRingCandidateRemove" {
+					// nothing to delete when the candidate is not stored
+					for id := int32(1); id < int32(len(a.lt.lits)); id++ {
+						if l := a.lt.lits[id]; l.Kind == KNil && l.A.Op == "read" && len(l.A.Args) > 0 && l.A.Args[0] == site.Args[1] {
+							q = append(q, id)
+						}
+					}
+				}
+				if !a.holdsAt(ex.State, q...) {
+					okFire, whyFire = false, wn.desc+" is not executed on the path to the exit at "+exitPos(w, ex)
+				}
+			}
+		}
+		cx.decide(okFire && len(wants) > 0, "threshold", key+"/fires", "every return other than the quiet one below the threshold has executed the action", name+" can return normally at (or above) the threshold without taking effect: "+whyFire, v.Where(w))
 		// RemoveVotes before the action, same id
 		okRm := rm.Args[1] == v.Args[1]
 		for _, e := range actions {
@@ -344,7 +399,7 @@ func runC17Common(cx *CheckCtx, w *World) {
 					if x, y, isEq := isEqualityCall(i.Cond); isEq {
 						tx, ty := tb.Term(tb.root, x), tb.Term(tb.root, y)
 						if (tx == id && ty.Op == "field" && ty.Name == "ID") || (ty == id && tx.Op == "field" && tx.Name == "ID") {
-							if b.Succs[0].Dominates(appFrom.Block()) {
+							if viaEdge(b, 0, appFrom.Block()) {
 								okId = true
 							}
 						}
